@@ -18,6 +18,7 @@ import (
 	"strconv"
 	"strings"
 
+	mhttp2 "mosn.io/mosn/pkg/module/http2"
 	"mosn.io/mosn/pkg/protocol/xprotocol/bolt"
 	"mosn.io/mosn/pkg/protocol/xprotocol/boltv2"
 	"mosn.io/mosn/pkg/protocol/xprotocol/dubbo"
@@ -28,6 +29,14 @@ import (
 )
 
 var gens = map[string]GenFn{"ProtoConsts": genProtoConsts, "CodecSrc": genCodecSrc}
+
+func coqByteList(b []byte) string {
+	var it []string
+	for _, x := range b {
+		it = append(it, fmt.Sprint(x))
+	}
+	return "[" + strings.Join(it, ";") + "]%N"
+}
 
 func src(fset *token.FileSet, n ast.Node) string {
 	var b bytes.Buffer
@@ -198,6 +207,43 @@ func genProtoConsts(repo string) (string, error) {
 			idx = 0
 		}
 		d(pk+"_cmdtype_idx", idx)
+	}
+	// protocol matchers: HTTP/1 method set (map literal in stream/http/stream.go) and the HTTP/2 client preface
+	{
+		_, f, err := ParseGoFile(repo, "pkg/stream/http/stream.go")
+		if err != nil {
+			return "", err
+		}
+		var methods []string
+		ast.Inspect(f, func(n ast.Node) bool {
+			vs, is := n.(*ast.ValueSpec)
+			if !is || len(vs.Names) != 1 || vs.Names[0].Name != "httpMethod" || len(vs.Values) != 1 {
+				return true
+			}
+			if cl, isLit := vs.Values[0].(*ast.CompositeLit); isLit {
+				for _, e := range cl.Elts {
+					if kv, isKV := e.(*ast.KeyValueExpr); isKV {
+						if bl, isBL := kv.Key.(*ast.BasicLit); isBL {
+							if m, err := strconv.Unquote(bl.Value); err == nil {
+								methods = append(methods, m)
+							}
+						}
+					}
+				}
+			}
+			return false
+		})
+		sort.Strings(methods)
+		if len(methods) == 0 {
+			ok = false
+		}
+		var ms []string
+		for _, m := range methods {
+			ms = append(ms, coqByteList([]byte(m)))
+		}
+		fmt.Fprintf(&b, "From Coq Require Import List.\nImport ListNotations.\nDefinition http_methods : list (list N) := [%s].\n", strings.Join(ms, "; "))
+		fmt.Fprintf(&b, "Definition http_min_method : N := %d.\nDefinition http_max_method : N := %d.\n", len("GET"), len("CONNECT"))
+		fmt.Fprintf(&b, "Definition h2_preface : list N := %s.\n", coqByteList([]byte(mhttp2.ClientPreface)))
 	}
 	fmt.Fprintf(&b, "Definition ProtoConsts_translator_ok := %v.\n", ok)
 	return b.String(), nil
